@@ -97,6 +97,50 @@ fn snapshot(
             }
         }
     }
+    // heads(roots..heads & filter) through the engine's HeadsRange plan (readonly index only)
+    if let Some(ro) = readonly {
+        use jj_lib::revset::ResolvedExpression;
+        use jj_lib::revset::ResolvedPredicateExpression;
+        let idx: &DefaultReadonlyIndex = ro.readonly_index().downcast_ref().unwrap();
+        for _ in 0..2 {
+            let roots = pick_set(rng, n, 2, true);
+            let roots = if rng.chance(1, 4) { vec![] } else { roots };
+            let heads = pick_set(rng, n, 3, true);
+            let max_parents = g.iter().map(|ps| ps.len()).max().unwrap_or(0) as u32;
+            let (lo, hi): (u32, u32) = match rng.below(4) {
+                0 => (0, 1),                    // first parents only
+                1 => (1, u32::MAX),             // all but the first parent
+                _ => (0, u32::MAX),
+            };
+            let fset: Option<Vec<usize>> = if rng.chance(2, 3) {
+                let d = *rng.pick(&[20u64, 50, 80]);
+                Some((0..n).filter(|_| rng.below(100) < d).collect())
+            } else {
+                None
+            };
+            let expr = ResolvedExpression::HeadsRange {
+                roots: Box::new(ResolvedExpression::Commits(ids_of(&roots))),
+                heads: Box::new(ResolvedExpression::Commits(ids_of(&heads))),
+                parents_range: lo..hi,
+                filter: fset.as_ref().map(|f| {
+                    ResolvedPredicateExpression::Set(Box::new(ResolvedExpression::Commits(ids_of(f))))
+                }),
+            };
+            let revset = idx.evaluate_revset_impl(&expr, ro.store()).unwrap();
+            let r: Vec<CommitId> = revset.iter_graph_impl(false).map(|nd| nd.unwrap().0).collect();
+            let hi_m = if hi == u32::MAX { max_parents.max(1) as usize + 1 } else { hi as usize };
+            qs.push(format!(
+                "QHeadsRange {} {} {lo} {hi_m} {} {}",
+                dagrepo::coq_nats(&roots),
+                dagrepo::coq_nats(&heads),
+                match &fset {
+                    Some(f) => format!("(Some {})", dagrepo::coq_nats(f)),
+                    None => "None".to_string(),
+                },
+                dagrepo::coq_nats(&to_pos(&r))
+            ));
+        }
+    }
     // all heads of the index (ascending positions)
     let all_heads: Vec<CommitId> = index.all_heads_for_gc().unwrap().collect();
     qs.push(format!("QAllHeads {}", dagrepo::coq_nats(&to_pos(&all_heads))));
